@@ -56,7 +56,7 @@ def verify(name):
     return out["confirmed"]
 
 
-def run(names, all_props, tier, seed):
+def run(names, all_props, tier, seed, save_regress=False):
     props = [json.loads(l)["id"] for l in open(os.path.join(HERE, "properties.jsonl"))]
     res_path = os.path.join(SEEDED, "RESULTS.json")
     results = json.load(open(res_path)) if os.path.exists(res_path) else {}
@@ -79,6 +79,17 @@ def run(names, all_props, tier, seed):
                                          "seed": seed, "violation": v[0][:300] if v else ""}
                 if r.returncode == 2:
                     entry["checks"][prop]["harness_error"] = r.stdout[-500:]
+                mt = re.search(r"VIOLATION property=(\S+) replay=(\S+)", r.stdout)
+                if save_regress and r.returncode == 1 and mt:
+                    rp = mt.group(2)
+                    r3 = subprocess.run([os.path.join(HERE, "check.py"), prop, "--replay", rp], cwd=HERE,
+                                        env=dict(os.environ, VERIF_OUT=out), capture_output=True, text=True)
+                    if r3.returncode == 0:
+                        dst = os.path.join(HERE, "regress", prop)
+                        os.makedirs(dst, exist_ok=True)
+                        data = json.load(open(rp))
+                        data["origin"] = f"seeded change {name}; " + data.get("origin", "")
+                        json.dump(data, open(os.path.join(dst, "seed-" + name + ".json"), "w"), indent=1, sort_keys=True)
                 print(f"{name:34s} {prop} exit={r.returncode} {entry['checks'][prop]['secs']}s {v[0][:150] if v else ''}", flush=True)
         finally:
             shutil.rmtree(d, ignore_errors=True)
@@ -93,12 +104,13 @@ def main():
     ap.add_argument("--all-props", action="store_true")
     ap.add_argument("--tier", default="quick")
     ap.add_argument("--seed", type=int, default=1)
+    ap.add_argument("--save-regress", action="store_true")
     a = ap.parse_args()
     names = a.names or sorted(n for n in os.listdir(SEEDED) if os.path.isdir(os.path.join(SEEDED, n)))
     if a.cmd == "verify":
         ok = all([verify(n) for n in names])
         sys.exit(0 if ok else 1)
-    run(names, a.all_props, a.tier, a.seed)
+    run(names, a.all_props, a.tier, a.seed, a.save_regress)
 
 
 if __name__ == "__main__":
